@@ -66,6 +66,7 @@ package main
 //@   ensures [C01] failed_keeps: err != nil ==> t.lastID == old(t.lastID) && rowMax[t.name] == old(rowMax[t.name])
 //@   ensures [C01] advanced:     err == nil ==> t.lastID >= old(t.lastID) + 1
 //@   ensures [C01] same_topic:   t.name == old(t.name) && t.cat == old(t.cat)
+//@   assert at call store.MessagesPersistenceInterface.Save [C16] attachments_linked_with_message: ref($2) == ref(attachments) && len($2) == len(attachments)
 //@   assert at call Save [C03] writer: t.cat == types.TopicCatSys || (effMode(t, asUid) & types.ModeWrite) != 0
 //@   ensures [C03] denied: old(t.cat != types.TopicCatSys && (effMode(t, asUid) & types.ModeWrite) == 0) ==> err != nil && t.lastID == old(t.lastID) && rowMax == old(rowMax) && hwm == old(hwm) && outCount[msg.sess] == old(outCount[msg.sess]) + 1 && (forall s int :: s != ref(msg.sess) ==> outCount[s] == old(outCount[s]))
 //@   assert at call Save [C01] seq_is_next: $1.SeqId == old(t.lastID) + 1 && t.lastID == old(t.lastID) && $1.Topic == t.name
@@ -127,6 +128,7 @@ package main
 //@   requires [C03] t != nil && msg != nil && msg.sess != nil && msg.Pub != nil
 //@   requires [C03] rowMax[t.name] <= t.lastID
 //@   assert at call saveAndBroadcastMessage [C03] live: !topicBlocked(t)
+//@   assert at call saveAndBroadcastMessage [C16] attachments_passed: msg.Extra != nil && len(msg.Extra.Attachments) > 0 ==> ref($4) == ref(msg.Extra.Attachments) && len($4) == len(msg.Extra.Attachments)
 //@   assert at call saveAndBroadcastMessage [C15] call_gate: isCall ==> len(globals.iceServers) != 0 && t.cat == types.TopicCatP2P && t.currentCall == nil
 //@   assert at call handleCallInvite [C15] invite_is_call: isCall && t.cat == types.TopicCatP2P
 //@   ensures [C15] busy_no_trace: old(!topicBlocked(t) && msg.Pub.Head != nil && msg.Pub.Head["webrtc"] != nil && len(globals.iceServers) != 0 && t.cat == types.TopicCatP2P && t.currentCall != nil) ==> t.lastID == old(t.lastID) && t.currentCall == old(t.currentCall) && rowMax == old(rowMax) && outCount[msg.sess] == old(outCount[msg.sess]) + 1
